@@ -24,6 +24,7 @@ type namedOpts struct {
 // genNamedCase draws a call over the named library types with per-type rule sets.
 func genNamedCase(t *rapid.T, o namedOpts) *StructCase {
 	mg := &msgGen{mode: o.msgMode}
+	mapKeyStyle = rapid.SampledFrom([]int{0, 0, 0, 0, 1, 2, 3}).Draw(t, "mapKeyStyle")
 	c := &StructCase{PerType: map[string]map[string]string{}}
 	rootName := rapid.SampledFrom(o.roots).Draw(t, "root")
 	// rule sets for every type reachable from the root
